@@ -6,7 +6,7 @@ responses and undecodable frames, every consumer speed).  Independence of the fr
 stream is C03 (ReadPDU re-frames any fragmentation); the classification of a frame into
 decodable / body error with header / fatal is the byte-level model of C03 / C04.
 -/
-import Smpp.Proofs.ConnInv
+import Smpp.Proofs.ConnProgress
 import Smpp.Properties.ConnSource
 
 namespace Smpp.Properties.C16
@@ -81,5 +81,28 @@ example : ((run (init tbl0) [.peerUnsol 3 1, .peerBad 44 2, .peerBad 0 3, .peerU
     .wPoll, .wRead, .wLookup, .setDrain false, .setDrain true, .wOffer, .wPoll, .wRead, .wNack, .wPoll, .wRead, .wNack,
     .wPoll, .wRead, .wLookup, .wOffer]).map fun s => (s.delivered, s.wire, s.watch))
     = some ([⟨3, .peer 1⟩, ⟨4, .peer 4⟩], [.nack 44], .poll) := by decide +kernel
+
+/-! ## completeness at rest (goroutine steps are finitely many: `C05_no_livelock` / `mu_decreases`) -/
+
+/-- **nothing is left behind**: in every state at rest with the connection live and the application draining, Watch is back
+in Read with nothing unread, every PDU that found no waiter HAS been handed to the application (in order, once), and every
+undecodable frame with a positive sequence number HAS been answered by its generic_nack -/
+theorem C16_complete_at_rest (tbl) (hd : Distinct tbl) (hf : Fresh tbl) (s : State) (hr : ReachP tbl s) (hq : Quiescent s)
+    (hconn : s.connDone = false) (hdrain : s.draining = true) :
+    s.watch = .reading ∧ s.inbound = [] ∧ s.delivered = s.missLog ∧
+    (s.writeBroken = false → s.wire.filter isNack = (badSeqs s.readLog).map OutFrame.nack) := by
+  obtain ⟨_, _, h3, _⟩ := inv_all tbl hd hf s hr.reach
+  have hn := nack_inv tbl s hr.reach
+  rcases quiescent_watch s hq with hw | ⟨hw, hin, _⟩ | ⟨k, p, q, hw, hb⟩ | ⟨p, _, hdr, _⟩
+  · have := (h3.watchDone hw).1; rw [hconn] at this; cases this
+  · refine ⟨hw, hin, ?_, ?_⟩
+    · have := h3.missExact (by simp [hw, WatchPc.inLoop])
+      simp [offerTail, hw] at this
+      exact this.symm
+    · intro hb
+      have := hn hb
+      simpa [nackTail, hw] using this
+  · exact absurd hb (fun hb => no_double_delivery tbl hd hf s hr k p q hw hb)
+  · rw [hdrain] at hdr; cases hdr
 
 end Smpp.Properties.C16
